@@ -10,7 +10,7 @@ def sym_to_json(t):
     syms = []
     for s in t.get_symbols():
         bits = (1 if s.is_assigned() else 0) | (2 if s.is_parameter() else 0) | (4 if s.is_global() else 0) | \
-               (8 if s.is_declared_global() else 0) | (16 if s.is_nonlocal() else 0) | (32 if s.is_free() else 0) | (64 if s.is_imported() else 0)
+               (8 if s.is_declared_global() else 0) | (16 if s.is_nonlocal() else 0) | (32 if s.is_free() else 0) | (64 if s.is_imported() else 0) | (128 if s.is_local() else 0)
         syms.append([s.get_name(), bits])
     isfn = isinstance(t, symtable.Function)
     iscls = isinstance(t, symtable.Class)
@@ -95,6 +95,53 @@ def model_bad(srcs_cfgs):
     for r in leandrv.run_batch(model_requests(srcs_cfgs)):
         out.append((r.get("bad"), "ok" if "ok" in r else ("err" if "err" in r else "protocol-error")))
     return out
+
+
+def owns(sym):
+    """the code's ownership test (`ownsName` / SymInfo.owns) on a real symtable.Symbol"""
+    return (not sym.is_nonlocal()) and (sym.is_assigned() or sym.is_imported() or (sym.is_parameter() and not sym.is_global()))
+
+
+def walk_invariants(src):
+    """the hypothesis `WalkOK` of C06.free_name_goes_to_binder evaluated on CPython's tables: for every function /
+    class scope and every free / nonlocal name of it, every enclosing function scope up to the first one in
+    which the name is local has the name in its table, and there the code's ownership test equals is_local().
+    Returns (number of walks checked, list of violations)."""
+    top = symtable.symtable(src, "<s>", "exec")
+    bad = []
+    n = [0]
+
+    def cands(t):
+        if isinstance(t, symtable.Function):
+            return list(t.get_frees()) + list(t.get_nonlocals())
+        if isinstance(t, symtable.Class):
+            return [s.get_name() for s in t.get_symbols() if s.is_nonlocal() or s.is_free()]
+        return []
+
+    def rec(t, stack):
+        for x in cands(t):
+            if x == "__class__" or x == "__classdict__":
+                continue
+            n[0] += 1
+            found = False
+            for outer in reversed(stack):
+                if not isinstance(outer, symtable.Function):
+                    continue
+                try:
+                    sym = outer.lookup(x)
+                except KeyError:
+                    bad.append(f"{x!r}: not in the table of enclosing function {outer.get_name()!r} (scope {t.get_name()!r})"); break
+                if owns(sym) != sym.is_local():
+                    bad.append(f"{x!r}: ownership test {owns(sym)} != is_local() {sym.is_local()} in {outer.get_name()!r} (walk from {t.get_name()!r})")
+                if sym.is_local():
+                    found = True
+                    break
+            if not found and not bad:
+                bad.append(f"{x!r}: no enclosing function scope binds it (walk from {t.get_name()!r})")
+        for c in t.get_children():
+            rec(c, stack + [t])
+    rec(top, [])
+    return n[0], bad
 
 
 def analysable(src):
